@@ -88,6 +88,17 @@ func VerifC03_GetHead() {
 	rt := &vRT{fn: func(req *http.Request) (*http.Response, error) { return vResp(200, wire), nil }}
 	s := &Syncer{client: &http.Client{Transport: rt}, rootURL: vURL("http://pub.example/ipni/v1/ad"), sync: &Sync{authPeerID: verif_Bool("authServerPeerID")},
 		peerInfo: peer.AddrInfo{ID: k1.id}, plainHTTP: verif_Bool("plainHTTP")}
+	if verif_Bool("priorGenuineQueryOnSameClient") {
+		// the subscriber reuses one sync client per publisher: an earlier, genuine
+		// answer must not make a later, altered one acceptable
+		genuineWire, gwerr := h1.Encode()
+		verif_Assume(gwerr == nil)
+		forgedWire := wire
+		wire = genuineWire
+		c0, e0 := s.GetHead(context.Background())
+		verif_Assert(e0 == nil && c0 == c1, "the genuine head is accepted")
+		wire = forgedWire
+	}
 	got, gerr := s.GetHead(context.Background())
 	verif_Reach("answered")
 
